@@ -112,6 +112,7 @@ func c10Staged(c *core.Case, o *core.Outcome) {
 		parts := make([]string, n)
 		prev := 0
 		hasZero, hasDesc := false, false
+		padded, previewed := false, false
 		var total time.Duration
 		for k := 0; k < n; k++ {
 			d := genDuration(r, true)
@@ -130,6 +131,11 @@ func c10Staged(c *core.Case, o *core.Outcome) {
 				sp = " "
 			}
 			parts[k] = fmt.Sprintf("%s%s:%s%d", sp, d.String(), sp, t)
+			if t >= 0 && r.IntN(5) == 0 {
+				// decimal targets written with leading zeros are the same decimal numbers
+				parts[k] = fmt.Sprintf("%s%s:%s%0*d", sp, d.String(), sp, len(fmt.Sprint(t))+1+r.IntN(3), t)
+				padded = true
+			}
 		}
 		stg := strings.Join(parts, ",")
 		startGiven := r.IntN(4) == 0
@@ -138,6 +144,14 @@ func c10Staged(c *core.Case, o *core.Outcome) {
 		if startGiven {
 			b := base
 			startPtr = &b
+		}
+		if startGiven && r.IntN(2) == 0 {
+			// a preview of the same plan from the same start variable (as a dry run would), evaluated first
+			if pv, perr := staged.CalculateStagedRate(0, time.Second, stg, "none", startPtr); perr == nil {
+				pv.Rate(base.Add(total / 2))
+				pv.Rate(base.Add(total + time.Hour))
+				previewed = true
+			}
 		}
 		rates, err := staged.CalculateStagedRate(0, time.Second, stg, "none", startPtr)
 		if err != nil {
@@ -227,7 +241,7 @@ func c10Staged(c *core.Case, o *core.Outcome) {
 		o.AddObs("profiles", 1)
 		if nontrivial {
 			o.AddObs("profiles_nontrivial", 1)
-			o.Sig("staged:n=%d:zero=%v:desc=%v:startgiven=%v:ends=%v", n, hasZero, hasDesc, startGiven, endsQueried)
+			o.Sig("staged:n=%d:zero=%v:desc=%v:startgiven=%v:ends=%v:padded=%v:previewed=%v", n, hasZero, hasDesc, startGiven, endsQueried, padded, previewed)
 		}
 		if i == 0 {
 			o.Sample = map[string]any{"stages": stg, "queries": len(offs), "total": total.String(), "start_given": startGiven}
